@@ -802,37 +802,51 @@ Section From.
   Lemma register_no_ctes ctx : register_ctes ctx [] = ctx.
   Proof. destruct ctx; reflexivity. Qed.
 
-  (* FROM path : the array the path resolves to (no CTE of that name, no alias) *)
+  (* a query that is not a subquery has nothing behind `<-` but what its document holds *)
+  Lemma up_read_nil ctx p : c_up ctx = [] -> up_read ctx p = None.
+  Proof.
+    intros H. unfold up_read. rewrite H. destruct p as [|k rest]; [reflexivity|].
+    destruct (String.eqb k "<-"); reflexivity.
+  Qed.
+
+  (* FROM path : the array the path resolves to (no CTE of that name, no alias).
+     [up_read ctx path = None] (new hypothesis): the path does not run, behind `<-`, into a CTE thunk
+     of an enclosing query — always so for a query that is not a subquery (up_read_nil) and for a
+     path that does not start with `<-` *)
   Lemma build_from_table ctx k rest src :
     cte_lookup k (c_ctes ctx) = None ->
+    up_read ctx (k :: rest) = None ->
     reader (k :: rest) (VObj (c_data ctx)) = Ok (VArr src) ->
     build_from rec join ctx (FTable (k :: rest) "") = Ok (Some src).
-  Proof. intros Hc Hr. cbn [build_from]. rewrite Hc, Hr. reflexivity. Qed.
+  Proof. intros Hc Hu Hr. cbn [build_from]. rewrite Hc, Hu, Hr. reflexivity. Qed.
 
   (* FROM mix=>path : the same array with every level flattened *)
   Lemma build_from_mix ctx path src :
+    up_read ctx path = None ->
     reader path (VObj (c_data ctx)) = Ok (VArr src) ->
     build_from rec join ctx (FTableFn "mix" path "") = Ok (Some (mix_array (VArr src))).
-  Proof. intros Hr. cbn [build_from]. rewrite Hr. reflexivity. Qed.
+  Proof. intros Hu Hr. cbn [build_from]. rewrite Hu, Hr. reflexivity. Qed.
 
   Theorem select_from_table ctx s k rest src :
     s_with s = [] -> s_from s = FTable (k :: rest) "" ->
     cte_lookup k (c_ctes ctx) = None ->
+    up_read ctx (k :: rest) = None ->
     reader (k :: rest) (VObj (c_data ctx)) = Ok (VArr src) ->
     exec_step rec call join ctx (JStmt (SSelect s)) = exec_step rec call join ctx (JRows s src).
   Proof.
-    intros Hw Hf Hc Hr. cbn [exec_step]. rewrite Hw, register_no_ctes, Hf.
-    rewrite (build_from_table _ _ _ _ Hc Hr). reflexivity.
+    intros Hw Hf Hc Hu Hr. cbn [exec_step]. rewrite Hw, register_no_ctes, Hf.
+    rewrite (build_from_table _ _ _ _ Hc Hu Hr). reflexivity.
   Qed.
 
   Theorem select_from_mix ctx s path src :
     s_with s = [] -> s_from s = FTableFn "mix" path "" ->
+    up_read ctx path = None ->
     reader path (VObj (c_data ctx)) = Ok (VArr src) ->
     exec_step rec call join ctx (JStmt (SSelect s)) =
     exec_step rec call join ctx (JRows s (mix_array (VArr src))).
   Proof.
-    intros Hw Hf Hr. cbn [exec_step]. rewrite Hw, register_no_ctes, Hf.
-    rewrite (build_from_mix _ _ _ Hr). reflexivity.
+    intros Hw Hf Hu Hr. cbn [exec_step]. rewrite Hw, register_no_ctes, Hf.
+    rewrite (build_from_mix _ _ _ Hu Hr). reflexivity.
   Qed.
 End From.
 
@@ -886,16 +900,17 @@ Section EndToEnd.
     simple s = true -> plain_query s = true ->
     s_with s = [] -> s_from s = FTable (k :: rest) "" ->
     cte_lookup k (c_ctes ctx) = None ->
+    up_read ctx (k :: rest) = None ->
     reader (k :: rest) (VObj (c_data ctx)) = Ok (VArr src) ->
     nested_result (converges call join ctx s) src out ->
     stmt_converges ctx (SSelect s) out /\
     stmt_converges ctx (SSelect (with_from (FTableFn "mix" (k :: rest) "") s)) (VArr (leaves out)).
   Proof.
-    intros Hs Hp Hw Hf Hc Hr Hn.
+    intros Hs Hp Hw Hf Hc Hu Hr Hn.
     destruct (mix_is_flattened_nested call join ctx s Hs Hp src out Hn) as [(m1 & H1) _].
     split.
     - exists (S m1). intros m Hm. destruct m as [|m]; [lia|]. cbn [exec].
-      rewrite (select_from_table _ _ _ ctx s k rest src Hw Hf Hc Hr).
+      rewrite (select_from_table _ _ _ ctx s k rest src Hw Hf Hc Hu Hr).
       change (exec call join (S m) ctx (JRows s src) = Ok out). apply H1. lia.
     - set (s' := with_from (FTableFn "mix" (k :: rest) "") s).
       assert (Hc' : concat_result (converges call join ctx s') src (leaves out)).
@@ -905,7 +920,7 @@ Section EndToEnd.
           intros rows o Hfl Hcv. eapply converges_flat_out; eauto. }
       destruct (mix_concat call join ctx s' Hs Hp src (leaves out) Hc') as (m2 & H2).
       exists (S m2). intros m Hm. destruct m as [|m]; [lia|]. cbn [exec].
-      rewrite (select_from_mix _ _ _ ctx s' (k :: rest) src Hw eq_refl Hr).
+      rewrite (select_from_mix _ _ _ ctx s' (k :: rest) src Hw eq_refl Hu Hr).
       change (exec call join (S m) ctx (JRows s' (mix_array (VArr src))) = Ok (VArr (leaves out))).
       apply H2. lia.
   Qed.
